@@ -175,6 +175,8 @@ class SymArray(NativeObj):
                     raise Unsupported("symbolic slice on array")
                 sels.append(("list", list(range(n))[s]))
             elif isinstance(s, (list, tuple)):
+                if s and all(isinstance(x, bool) or (isinstance(x, SV) and x.is_bool) for x in s):
+                    s = [x if isinstance(x, bool) else interp.truth(x) for x in s]  # forks: data-dependent shape
                 if s and all(isinstance(x, bool) for x in s):
                     if len(s) != n:
                         interp.raise_py("IndexError", "boolean index did not match indexed array")
